@@ -279,7 +279,7 @@
         std::mem::forget(full);
     }
 
-// @h id=H11.3-m$m prop=C11,C03 rep="m:0-1" quick="1-1" cap=1500 mem=24 unwind=11 uw="rec:read_dir_rec=2;read_dir_rec=3" stubs="Directory::from_reader -> fixed-shape reference parser (see H3.1a)" bounds="the two-leaf tree of H3.1b; filter = all 9 bound-kind combinations, any u64 endpoints; probe any u64"
+// @h id=H11.3-m$m prop=C11,C03 rep="m:0-1" quick="9-9" cap=1500 mem=24 unwind=11 uw="rec:read_dir_rec=2;read_dir_rec=3" stubs="Directory::from_reader -> fixed-shape reference parser (see H3.1a)" bounds="the two-leaf tree of H3.1b; filter = all 9 bound-kind combinations, any u64 endpoints; probe any u64"
     /// leaf directories beyond the range end are skipped and the others walked: partial == full restricted to the range (skip branch taken and not taken)
     #[kani::proof]
     #[kani::stub(crate::directory::Directory::from_reader, stub_from_reader2)]
@@ -433,4 +433,37 @@
         kani::cover!(tile[0].offset == 5 && tile[0].tile_id == 3);
         kani::cover!(rd.ops == 6);
         std::mem::forget(r);
+    }
+
+// @h id=H11.4 prop=C11,C03 tier=quick cap=800 mem=16 unwind=11 uw="rec:read_dir_rec=2;read_dir_rec=4" stubs="Directory::from_reader -> fixed-shape reference parser (1 entry)" bounds="root of ONE leaf pointer + a leaf of one tile entry (any id, run length 1..3, any offset, length fixed), leaf section at offset 40 with the leaf at pointer offset 2; filter = all 9 bound-kind combinations with any u64 endpoints; probe any u64; recursion bound 2"
+    /// a leaf directory is skipped exactly when its first id lies beyond the inclusive range end, and what is kept equals the full walk restricted to the range (leaf-skip branch taken / not taken / on the boundary)
+    #[kani::proof]
+    #[kani::stub(crate::directory::Directory::from_reader, stub_from_reader1)]
+    fn h11_4_one_leaf_skip() {
+        let mut l = any_entries::<1>();
+        let ks: u8 = kani::any();
+        let ke: u8 = kani::any();
+        let a: u64 = kani::any();
+        let b: u64 = kani::any();
+        let t: u64 = kani::any();
+        kani::assume(ks < 3 && ke < 3);
+        kani::assume(l[0].run_length >= 1 && l[0].run_length <= 3 && l[0].tile_id <= u64::MAX - 8);
+        kani::assume(l[0].offset <= u64::MAX - (1u64 << 33));
+        l[0].length = 6;
+        let root = [REntry { tile_id: l[0].tile_id, offset: 2, length: L1 as u32, run_length: 0 }];
+        let mut img = [0u8; 40 + 2 + L1];
+        put1(&mut img, 1, &root);
+        put1(&mut img, 42, &l);
+        let range = (mk_bound(ks, a), mk_bound(ke, b));
+        let part = read_directories(&mut Cursor::new(&img[..]), Compression::None, (1, L1 as u64), 40, range);
+        assert!(part.is_ok());
+        let part = part.unwrap();
+        let want = if in_range(&range, t) { expect(&l, t) } else { None };
+        assert!(got(&part, t) == want);
+        let end_inc = match range.1 { Bound::Included(x) => x, Bound::Excluded(x) => x.saturating_sub(1), Bound::Unbounded => u64::MAX };
+        kani::cover!(l[0].tile_id > end_inc);                                            // leaf skipped
+        kani::cover!(l[0].tile_id == end_inc && got(&part, l[0].tile_id).is_some());     // boundary: not skipped
+        kani::cover!(l[0].run_length == 3 && ks == 0 && ke == 0 && a == l[0].tile_id + 1 && b == a && got(&part, a).is_some());
+        kani::cover!(ke == 1 && b == 0);
+        std::mem::forget(part);
     }
